@@ -161,9 +161,10 @@ def integrate_spin(expr: Expr, target_idx: str, target_spin: str) -> Expr:
                         idx_map[spin].add(idx)
                 if not valid:
                     continue
+                # an index that occurs twice on the object (a trace) can
+                # not have both spins -> the spin block does not contribute
                 if idx_map["a"] & idx_map["b"]:
-                    raise ValueError("Found invalid allowed spin block "
-                                     f"{block} for {obj}.")
+                    continue
                 obj_spin_idx_maps.append(idx_map)
             if not obj_spin_idx_maps:
                 term_vanishes = True
@@ -301,12 +302,16 @@ def allowed_spin_blocks(expr: Expr, target_idx: str) -> tuple[str]:
             object_idx_maps = []
             for block in allowed_object_blocks:
                 idx_map = {}
+                valid = True
                 for spin, idx in zip(block, obj_indices):
+                    # an index that occurs twice on the object (a trace)
+                    # can not have both spins
                     if idx in idx_map and idx_map[idx] != spin:
-                        raise ValueError("Found invalid allowed spin block "
-                                         f"{block} for {obj}.")
+                        valid = False
+                        break
                     idx_map[idx] = spin
-                object_idx_maps.append(idx_map)
+                if valid:
+                    object_idx_maps.append(idx_map)
             term_idx_maps.append((object_idx_maps, n_target))
         # - sort the allowed_tensor_blocks such that tensors with a high
         #   number of target indices are preferred
